@@ -587,8 +587,8 @@ Proof.
   - unfold allowed_b in H. destruct pre as [|p pre']; [discriminate|].
     destruct suf as [|s suf']; [discriminate|].
     apply andb_true_iff in H. destruct H as [_ H].
-    destruct (content (p :: pre')) as [[x|m w|e|e|m x h|]|] eqn:Ep; try discriminate;
-    destruct (content (s :: suf')) as [[y|m' w'|e'|e'|m' y h'|]|] eqn:Es; try discriminate.
+    destruct (content (p :: pre')) as [[x|m w|e|e|m x h| |]|] eqn:Ep; try discriminate;
+    destruct (content (s :: suf')) as [[y|m' w'|e'|e'|m' y h'| |]|] eqn:Es; try discriminate.
     + right. right. left. exists x, m', y, h'. auto.
     + left. exists m, w. apply andb_true_iff in H. destruct H as [H1 H2].
       repeat split; auto. left. split; eauto.
@@ -654,6 +654,7 @@ Proof.
   - apply IH. exact Hs.
   - apply IH. exact Hs.
   - apply IH. exact Hs.
+  - apply IH. exact Hs.
 Qed.
 
 Lemma wstep_space_acc : forall s m w, collapses m = true -> acc (wstep s (Space m w)) = acc s.
@@ -673,6 +674,7 @@ Proof.
   - cbn [wstep acc]. now rewrite IH.
   - cbn [wstep acc]. now rewrite IH.
   - cbn [wstep]. apply IH.
+  - cbn [wstep]. apply IH.
 Qed.
 
 (* "leading/trailing collapsible spaces take no room" *)
@@ -688,8 +690,9 @@ Local Open Scope Q_scope.
 Theorem lines_stack : forall c first y ls, Stacked y (stack c first y ls).
 Proof.
   intros c first y ls. revert first y.
-  induction ls as [|l r IH]; intros first y; simpl; [exact I|].
-  split; [reflexivity|apply IH].
+  induction ls as [|l r IH]; intros first y; cbn [stack]; [exact I|].
+  destruct (phantom l); [apply IH|].
+  cbn [Stacked oy oh]. split; [reflexivity|apply IH].
 Qed.
 
 Theorem layout_stacked : forall c items, Stacked (y0 c) (layout c items).
@@ -810,7 +813,8 @@ Definition set_indent (c : cfg) (i : Z) : cfg :=
 Theorem indent_first_only : forall c i y ls,
   stack (set_indent c i) false y ls = stack c false y ls.
 Proof.
-  intros c i y ls. revert y. induction ls as [|l r IH]; intros y; simpl; [reflexivity|].
+  intros c i y ls. revert y. induction ls as [|l r IH]; intros y; cbn [stack]; [reflexivity|].
+  destruct (phantom l); [apply IH|].
   rewrite IH. reflexivity.
 Qed.
 
@@ -980,7 +984,7 @@ Proof.
   - inversion Hwf as [|? ? Hi Hr]; subst.
     pose proof (zq_nonneg _ Hi) as Hiq.
     assert (Hadv := advance_cons emv extra i r).
-    destruct i as [w0|m w0|e|e|m w0 h|]; cbn [walk iw] in *.
+    destruct i as [w0|m w0|e|e|m w0 h| |]; cbn [walk iw] in *.
     + (* Word *)
       eapply chain_hi.
       * apply (IH emv extra (x + zq w0)); auto.
@@ -1018,6 +1022,8 @@ Proof.
       * destruct Hrun as [H1 [H2 H3]]. cbn [chain fx fw]. repeat split; auto.
         eapply chain_hi; [apply (IH emv extra x None (s + w)); auto; lra|lra].
       * eapply chain_hi; [apply (IH emv extra x None lo); auto; lra|lra].
+    + (* EB: invisible *)
+      eapply chain_hi; [apply (IH emv extra x run lo); auto|lra].
 Qed.
 
 Lemma wf_drops : forall l t, drops_spaces l t -> wf l -> wf t.
@@ -1073,3 +1079,22 @@ Proof.
   - destruct A as [A1 A2]. rewrite A2. rewrite Ez in A1. lra.
   - destruct A as [A1 [_ A3]]. specialize (A3 Hl Hp Hn). rewrite Ez in A3. rewrite A1. lra.
 Qed.
+
+(* the line box holds the text-indent and the content: it starts text-indent before the
+   first fragment's start and ends where the chain of fragments (place_chain) ends *)
+Theorem line_box_spec : forall (c : cfg) (first last : bool) (l : list item),
+  let ind := if first then indent c else 0%Z in
+  let v := trim_line l in
+  let p := align_params c ind last v in
+  let start := x0 c + zq ind + fst p in
+  fst (line_box c first last l) + zq ind == start /\
+  fst (line_box c first last l) + snd (line_box c first last l) == start + advance (em c) (snd p) v.
+Proof.
+  intros c first last l ind v p start. subst start. unfold line_box. fold ind. fold v. fold p.
+  destruct p as [off extra]. cbn [fst snd]. split; ring.
+Qed.
+
+(* a phantom line box (CSS 2.1 9.4.2) takes no room and does not count as the first line *)
+Theorem stack_phantom : forall c first y l r, phantom l = true ->
+  stack c first y (l :: r) = stack c first y r.
+Proof. intros c first y l r H. cbn [stack]. now rewrite H. Qed.
